@@ -70,6 +70,9 @@ type Scenario struct {
 	// free-form parameters of the family (oracle settings), kept in the replay file
 	Params map[string]float64 `json:"params,omitempty"`
 	Notes  string             `json:"notes,omitempty"`
+	// RawYAML (L2): use this configuration document instead of rendering the
+	// scenario; "@W@" is replaced by the world directory.
+	RawYAML string `json:"rawYaml,omitempty"`
 }
 
 // ChipSpec is one fake hwmon chip directory.
